@@ -44,6 +44,10 @@ def step (s : S) (line : String) : S × String :=
       let (rules, ok) := setRules s.conns s.rules cfgs
       ({ s with rules := rules }, if ok then "ok" else "rejected")
     | none => (s, "bad-op")
+  | ["G"] =>
+    let (rules, ok) := setRules s.conns s.rules (s.rules.map (·.src))
+    ({ s with rules := rules }, if ok then "ok" else "rejected")
+  | ["C", _] => (s, "ok")      -- theorem decided_by_one_version: never a mixture
   | ["Q", r, payload, failing] =>
     match parseReq r with
     | some q =>
